@@ -230,6 +230,10 @@ var hazards = []hazard{
 	{"link-to-dev-null", fsx.Tree{{Path: "ldn", Kind: "symlink", Target: "/dev/null"}, {Path: "ldz", Kind: "symlink", Target: "/dev/zero"}}, nil},
 	{"link-to-dev-dir", fsx.Tree{{Path: "lproc", Kind: "symlink", Target: "/proc/self/fd"}}, nil},
 	{"long-chain", fsx.Tree{{Path: "c0", Kind: "symlink", Target: "../ext/ch0"}}, chainTree(60)},
+	// a directory that can be listed but not searched (matters without privileges), and one that cannot be listed
+	{"dir-read-no-search", fsx.Tree{{Path: "ns", Kind: "dir", Mode: 0444}, {Path: "ns/f", Kind: "file", Content: "IN:f", Mode: 0644}}, nil},
+	{"dir-no-read", fsx.Tree{{Path: "nr", Kind: "dir", Mode: 0311}, {Path: "nr/f", Kind: "file", Content: "IN:f", Mode: 0644}}, nil},
+	{"file-no-read", fsx.Tree{{Path: "secret", Kind: "file", Content: "IN:s", Mode: 0000}}, nil},
 	// the rule file itself is not a regular file
 	{"rulefile-fifo", fsx.Tree{{Path: ".terraformignore", Kind: "fifo"}}, nil},
 	{"rulefile-link-to-fifo", fsx.Tree{{Path: ".terraformignore", Kind: "symlink", Target: "../ext/rpipe"}}, fsx.Tree{{Path: "ext/rpipe", Kind: "fifo"}}},
